@@ -15,7 +15,8 @@ RULE = ('Hypothesis generates result trees (elements with namespaced/non-ASCII n
         'ISO-8859-2, KOI8-R} x version {1.0, 1.1}. The event script is replayed into XalanXMLSerializerFactory::create and FormatterToXML. '
         'Oracle: if the tree is representable in that version/encoding the call must succeed and the bytes, parsed by expat (1.0) and by '
         'Xerces SAX2 (1.0/1.1), must give back the same expanded-name tree; otherwise the call must fail. Non-trivial: a string needs '
-        'escaping or has a multi-unit character, or the output exceeds 512 bytes. distinct = distinct canonical case text.')
+        'escaping or has a multi-unit character, or the output exceeds 512 bytes. distinct = distinct canonical case text.'
+        ' One of the encodings is a name the transcoding service does not know: the serializers fall back to UTF-8 and what they write must then declare UTF-8.')
 ASSUMPTIONS = ['expat 2.5 and Xerces-C SAX2 are correct XML parsers (independent of the serializers)',
                'Python codecs define encodability for ISO-8859-1/-2, US-ASCII, KOI8-R identically to ICU',
                'serializer preconditions respected: valid names, no -- in comments, no ?> in PIs, startDocument first']
